@@ -245,6 +245,57 @@ func c07(r *core.Run) {
 				}
 			}
 			r.Check(okA, "C07/R5", h.Key()+":charged-plan-is-signers", p.InstrPos(planCall), "charged plan loaded by the signer's key", "the plan charged is not the signer's")
+			// the plan charged is keyed by exactly the string stored as the file's Owner: removal refunds the plan
+			// found under file.Owner, so the two must be the same spelling of the account, not merely the same account
+			if okA {
+				tb := core.NewTermBuilder(p)
+				ktb := tb
+				if unit := ap[0].Call.Parent(); unit != h.Fn {
+					// the lookup lives in a helper: express its key in the handler's values
+					ktb = core.NewTermBuilder(p)
+					ktb.Bind = map[*ssa.Parameter]core.BoundVal{}
+					allInstrs(h.Fn, func(in ssa.Instruction) {
+						cs, ok := in.(ssa.CallInstruction)
+						if !ok {
+							return
+						}
+						for _, cal := range p.Callees(cs) {
+							if cal != unit {
+								continue
+							}
+							c := cs.Common()
+							var actuals []ssa.Value
+							if c.IsInvoke() {
+								actuals = append(actuals, c.Value)
+							}
+							actuals = append(actuals, c.Args...)
+							for i, prm := range unit.Params {
+								if i < len(actuals) {
+									ktb.Bind[prm] = core.BoundVal{Val: actuals[i], TB: tb}
+								}
+							}
+						}
+					})
+				}
+				var keyTerms []string
+				for _, a := range dataArgs(ap[0].Call) {
+					keyTerms = append(keyTerms, ktb.Term(a))
+				}
+				ownerTerm := ""
+				// the file record built by the handler
+				allInstrs(h.Fn, func(in ssa.Instruction) {
+					if al, ok := in.(*ssa.Alloc); ok && core.TypeName(al.Type()) == "x/storage/types.UnifiedFile" {
+						if sts := fieldStores(al, "Owner"); len(sts) > 0 {
+							ownerTerm = tb.Term(sts[len(sts)-1].Val)
+						}
+					}
+				})
+				if ownerTerm == "" {
+					r.Undecided("C07/R5", h.Key()+":charge-key=stored-owner", p.InstrPos(planCall), "the stored file's Owner assignment was not found next to the plan lookup")
+				} else {
+					r.Check(len(keyTerms) == 1 && keyTerms[0] == ownerTerm, "C07/R5", h.Key()+":charge-key=stored-owner", p.InstrPos(planCall), "plan key ≡ stored Owner ("+ownerTerm+")", "the plan is charged under "+strings.Join(keyTerms, ",")+" but the file is stored with Owner "+ownerTerm+": removal refunds the plan found under file.Owner, so for a spelling where the two differ the footprint is never returned")
+				}
+			}
 		}
 	}
 	// ---- R3 validation at the door
